@@ -121,8 +121,8 @@ void rand_redirects(G &g, StartSpec &s) {
       case 0: rs.type = C.R_PIPE; break;
       case 1: rs.type = C.R_PARENT; break;
       case 2: rs.type = C.R_DISCARD; break;
-      case 3: rs.type = g.chance(50) ? C.R_HANDLE : C.R_DEFAULT; rs.handle = (int) g.pick({ 1, 2, 3 }); break;
-      case 4: rs.type = g.chance(50) ? C.R_FILE : C.R_DEFAULT; rs.file = 1; break;
+      case 3: rs.type = g.chance(50) ? C.R_HANDLE : C.R_DEFAULT; rs.handle = (int) g.pick({ 1, 2, 3, 3, 4, 5 }); break;
+      case 4: rs.type = g.chance(50) ? C.R_FILE : C.R_DEFAULT; rs.file = stream == 0 ? (int) g.pick({ 1, 1, 5 }) : (int) g.pick({ 1, 1, 3, 4 }); break;
       case 5: rs.type = g.chance(50) ? C.R_PATH : C.R_DEFAULT; rs.path = (int) g.pick({ 1, 4, 5 }); break;
       case 6: if (stream == 2) rs.type = C.R_STDOUT; break;
       default: break;
@@ -288,6 +288,8 @@ Plan gen_c02(uint64_t seed, const GenOpts &o) {
       if (nout > 0) c.script.push_back(Step{ Step::WRITE, 1, nout / pieces + (i == 0 ? nout % pieces : 0), chunk });
       if (nerr > 0) c.script.push_back(Step{ Step::WRITE, 2, nerr / pieces + (i == 0 ? nerr % pieces : 0), chunk });
       if (g.chance(30)) c.script.push_back(Step{ Step::SLEEP, 0, g.pick({ 1, 5 }), 0 });
+      // one stream may be closed while the other is still being written
+      if (i + 1 < pieces && g.chance(15)) c.script.push_back(Step{ Step::CLOSE, g.chance(50) ? 1 : 2, 0, 0 });
     }
   }
   int64_t in_total_pre = reads_in ? size_pick() / (echo ? 4 : 1) : 0;
@@ -853,6 +855,7 @@ Plan gen_c16(uint64_t seed, const GenOpts &o) {
   for (int i = 0; i < pieces; i++) {
     c.script.push_back(Step{ Step::WRITE, g.chance(65) ? 1 : 2, g.pick({ 0, 1, 100, 4095, 4096, 4097, big }), g.pick({ 0, 1, 100, 4096 }) });
     if (g.chance(30)) c.script.push_back(Step{ Step::SLEEP, 0, g.pick({ 1, 10, 40 }), 0 });
+    if (i + 1 < pieces && g.chance(12)) c.script.push_back(Step{ Step::CLOSE, g.chance(50) ? 1 : 2, 0, 0 });
   }
   if (g.chance(30)) c.script.push_back(Step{ Step::CLOSE, g.chance(50) ? 1 : 2, 0, 0 });
   if (g.chance(30)) c.script.push_back(Step{ Step::SLEEP, 0, g.pick({ 5, 50, 100000 }), 0 });
@@ -1069,6 +1072,7 @@ std::vector<Outcome> outcomes_for(Kind k, bool child_side) {
     case K_pipe: return { { EMFILE, 0, false }, { ENFILE, 0, false } };
     case K_fcntl_getfd: case K_fcntl_getfl: return { { EINVAL, 0, true } };
     case K_fcntl_setfd: case K_fcntl_setfl: return { { EINVAL, 0, true } };
+    case K_fcntl_other: return { { EMFILE, 0, false }, { EINVAL, 0, true } };  // F_DUPFD / F_DUPFD_CLOEXEC
     case K_read: return { { EINTR, 0, false } };
     case K_write: return { { EINTR, 0, false }, { EAGAIN, 0, false }, { F_SHORT, 1, false } };
     case K_poll: return { { EINTR, 0, false }, { ENOMEM, 0, false } };
